@@ -1,6 +1,7 @@
 package main
 
 import (
+	"context"
 	"fmt"
 	"math/rand"
 	"runtime"
@@ -633,4 +634,89 @@ func runC05(r *Run) {
 	for i := 0; i < r.Pick(4, 40); i++ {
 		c05HybridEvictions(r, r.Shard*4+i)
 	}
+	for i := 0; i < r.Pick(4, 40); i++ {
+		c05DeadlineBeforeEvent(r, r.Shard*40+i)
+	}
+}
+
+// c05DeadlineBeforeEvent: a cache a twentieth full, so that nothing is ever evicted for capacity. Keys the policy
+// knows are given a new value with a TTL so short that the deadline has passed before the write's own event is
+// applied (maintenance is held back by the policy lock for a few milliseconds), or - new keys - are stored with
+// such a TTL in the first place. After the release, a step of virtual time and a tick, every such value must have
+// been reported exactly once, with its own key and value and the reason EXPIRED: the deadline is why it left.
+func c05DeadlineBeforeEvent(r *Run, idx int) {
+	rng := r.Rng(int64(5500 + idx))
+	kind := []string{"plain", "loading"}[idx%2]
+	pool := idx/2%2 == 1
+	done := r.Case(fmt.Sprintf("deadline-before-event %d kind=%s pool=%v", idx, kind, pool))
+	defer done()
+	nl := &noteLog[int, int64]{}
+	a, err := newAnyCache(kind, anyOpts{MaxSize: 1000, Listener: nl.listener(), Pool: pool})
+	if err != nil {
+		r.Broken("build: %v", err)
+		return
+	}
+	defer a.closeAPI()
+	st := a.store()
+	n := 20 + rng.Intn(30)
+	for k := 0; k < n; k++ {
+		a.set(k, int64(k)<<8|1, 1, time.Duration(k%2)*time.Hour) // half of them already carry a (long) deadline
+	}
+	a.wait()
+	for k := 0; k < n; k++ {
+		_, _, _ = a.get(context.Background(), k)
+	}
+	a.wait()
+	want := map[int]int64{}
+	st.VerifPolicyLock()
+	for k := 0; k < n; k++ {
+		v := int64(k)<<8 | 2
+		a.set(k, v, 1, time.Duration(1+rng.Intn(900))*time.Microsecond)
+		want[k] = v
+	}
+	for k := 1000; k < 1000+n/2; k++ { // new keys born with such a TTL
+		v := int64(k)<<8 | 2
+		a.set(k, v, 1, time.Duration(1+rng.Intn(900))*time.Microsecond)
+		want[k] = v
+	}
+	time.Sleep(3 * time.Millisecond)
+	st.VerifPolicyUnlock()
+	a.wait()
+	st.VerifShiftClock(3*time.Second, true)
+	st.VerifTick()
+	a.wait()
+	st.VerifShiftClock(2*time.Second, true)
+	st.VerifTick()
+	a.wait()
+	got := map[int][]note[int, int64]{}
+	for _, nt := range nl.snapshot() {
+		if nt.Val&0xff == 2 {
+			got[nt.Key] = append(got[nt.Key], nt)
+		}
+	}
+	wit := map[string]any{"round": idx, "cache": kind, "entry_pool": pool, "keys": len(want)}
+	for k, v := range want {
+		ns := got[k]
+		where := "rewritten with a TTL below a millisecond"
+		if k >= 1000 {
+			where = "stored with a TTL below a millisecond"
+		}
+		switch {
+		case len(ns) == 0 && st.VerifResident(k):
+			r.Violate("never-reclaimed/deadline-passed-before-its-event-was-applied", fmt.Sprintf("round %d (%s, pool=%v): key %d %s while maintenance was held back for 3 ms; 5 s and two ticks later it is still resident and was never reported", idx, kind, pool, k, where), wit)
+			return
+		case len(ns) == 0:
+			r.Violate("no-notification/deadline-passed-before-its-event-was-applied", fmt.Sprintf("round %d (%s, pool=%v): key %d %s while maintenance was held back for 3 ms; it is gone and was never reported", idx, kind, pool, k, where), wit)
+			return
+		case len(ns) > 1:
+			r.Violate("notified-twice/deadline-passed-before-its-event-was-applied", fmt.Sprintf("round %d (%s, pool=%v): key %d %s: value %d reported %d times", idx, kind, pool, k, where, v, len(ns)), wit)
+			return
+		case ns[0].Val != v || ns[0].Reason != theine.EXPIRED:
+			r.Violate("wrong-reason/deadline-passed-before-its-event-was-applied/"+reasonName(ns[0].Reason), fmt.Sprintf("round %d (%s, pool=%v, MaxSize 1000 holding %d): key %d %s while maintenance was held back for 3 ms: reported as (%d, %s), want (%d, EXPIRED) - the cache was never near its capacity and the key was not deleted", idx, kind, pool, len(want), k, where, ns[0].Val, reasonName(ns[0].Reason), v), wit)
+			return
+		}
+	}
+	r.Eval(1)
+	r.Count("values_whose_deadline_passed_before_their_event_was_applied", int64(len(want)))
+	r.Distinct(fmt.Sprintf("deadline-before-event/%s/pool=%v", kind, pool))
 }
